@@ -148,6 +148,37 @@ fn key_pool(rng: &mut Rng) -> Vec<String> {
     for _ in 0..6 { k.push(format!("r{:x}", rng.next())); }
     k
 }
+
+/// several calls in a row (same epoch, nothing drained in between): each call appends ITS OWN messages carrying ITS OWN deltas -
+/// a later write of a key never replaces, absorbs or suppresses a delta queued earlier (each delta carries its own stamp; the
+/// receiver needs every one of them to end with the same stamp as the sender)
+fn check_calls(s: &Setup, batches: &[Vec<ReplicationDelta>]) -> Option<Found> {
+    let mut st = make_state(s);
+    let mut want: Vec<Vec<String>> = Vec::new();
+    for b in batches {
+        if let Err(p) = call(&mut st, s, b.clone()) { return Some(Found { input: format!("{}; {} consecutive calls", show_setup(s), batches.len()), observed: format!("panic: {}", p), required: "the messages are queued".into() }); }
+        want.push(expected(s, b));
+    }
+    let total: usize = want.iter().map(|w| w.len()).sum();
+    if total > MAX_OUTBOUND_QUEUE { return None; }
+    let got: Vec<String> = st.outbound_queue.iter().map(msg_id).collect();
+    let input = format!("{}; empty outbound queue; {} consecutive calls in one epoch, nothing drained in between, batches with keys {}", show_setup(s), batches.len(), batches.iter().map(|b| keys_of(b)).collect::<Vec<_>>().join(" then "));
+    if got.len() != total {
+        return Some(Found { input, observed: format!("the queue holds {} messages: {}", got.len(), short(&got.join(" | "))), required: format!("{} messages: every call appends its own ({})", total, short(&want.iter().map(|w| w.join(" | ")).collect::<Vec<_>>().join(" || "))) });
+    }
+    let mut at = 0usize;
+    for (i, w) in want.iter().enumerate() {
+        let mut seg: Vec<String> = got[at..at + w.len()].to_vec();
+        let mut ws = w.clone();
+        seg.sort(); ws.sort();
+        if seg != ws {
+            return Some(Found { input, observed: format!("call #{} left: {}", i + 1, short(&seg.join(" | "))), required: short(&ws.join(" | ")) });
+        }
+        at += w.len();
+    }
+    None
+}
+
 fn gen_batch(rng: &mut Rng, pool: &[String], n: usize) -> Vec<ReplicationDelta> {
     (0..n).map(|i| { let kind = if rng.chance(1, 8) { i as u64 % 10 } else { rng.below(3) }; let mut d = gen_delta_auto(rng, kind); d.key = rng.pick(pool).clone(); d }).collect()
 }
@@ -184,6 +215,21 @@ pub fn search(_pid: &str, oid: &str, seed: u64) -> Option<Found> {
                         if let Some(f) = check(&s, prefill, &batch) { return Some(f); }
                     }
                 }
+            }
+        }
+    }
+    // consecutive calls in one epoch: a re-write of the SAME value (later stamp), a different value, other keys
+    for mode in [Mode::NoRouter, Mode::RouterNotSelective, Mode::BroadcastCall, Mode::Selective] {
+        let s = Setup { members: vec![1, 2, 3, 4], vn: 16, rf: 2, me: 1, addressed: vec![2, 3, 4], mode, epoch: 3 };
+        for n in [1usize, 2, 5] {
+            let a = gen_batch(&mut rng, &pool, n);
+            let mut same_value_later_stamp = a.clone();
+            for d in same_value_later_stamp.iter_mut() { d.value.timestamp.time += 1; }
+            let other = gen_batch(&mut rng, &pool, n);
+            let mut same_keys_other_values = gen_batch(&mut rng, &pool, n);
+            for (d, o) in same_keys_other_values.iter_mut().zip(a.iter()) { d.key = o.key.clone(); }
+            for seq in [vec![a.clone(), same_value_later_stamp.clone()], vec![a.clone(), same_keys_other_values.clone()], vec![a.clone(), other.clone(), same_value_later_stamp.clone()], vec![a.clone(), a.clone()]] {
+                if let Some(f) = check_calls(&s, &seq) { return Some(f); }
             }
         }
     }
